@@ -21,6 +21,7 @@ import (
 	"github.com/ozontech/seq-db/querytracer"
 	"github.com/ozontech/seq-db/seq"
 	"github.com/ozontech/seq-db/verifsim"
+	"github.com/ozontech/seq-db/verifsim/simos"
 	"google.golang.org/grpc/codes"
 	"google.golang.org/grpc/status"
 )
@@ -38,6 +39,10 @@ func (r *clusterRunner) scriptF() {
 	r.net = simenv.NewNet(c.Seed, time.Duration(c.MaxLatencyMs)*time.Millisecond)
 	r.maybe = map[model.ID]*model.Doc{}
 	r.asyncIDs = map[string]string{}
+	r.w.Plan = c.Faults
+	for k, v := range c.NetFaults {
+		r.net.Faults[k] = v
+	}
 	clients := map[string]pb.StoreApiClient{}
 	mk := func(prefix string, shards, replicas int, mode string, knobs simenv.Knobs) *stores.Stores {
 		st := &stores.Stores{Shards: [][]string{}, Vers: []string{}}
@@ -77,6 +82,7 @@ func (r *clusterRunner) scriptF() {
 	if len(r.res.Violations) > 0 {
 		return
 	}
+	r.hotSt, r.coldSt = hot, cold
 	r.client = bulk.NewSeqDBClient(hot, cold, circuitbreaker.Config{RequestVolumeThreshold: 101, Timeout: 2 * time.Second}, clients)
 	r.ing = search.NewIngestor(search.Config{HotStores: hot, ReadStores: cold, WriteStores: cold}, clients)
 
@@ -127,6 +133,12 @@ func (r *clusterRunner) scriptF() {
 					}
 				}
 			}
+		case "arm":
+			r.w.Arm(st.Group)
+		case "disarm":
+			r.w.Disarm()
+		case "dvalidate":
+			r.validateDurable(st.Label)
 		case "fvalidate":
 			r.validateF(st.Label)
 		case "hotrule":
@@ -139,6 +151,11 @@ func (r *clusterRunner) scriptF() {
 			r.asyncFetchF(st.Async, true)
 		}
 	}
+}
+
+// trouble counts transport-level faults and unavailability seen so far.
+func (r *clusterRunner) trouble() int {
+	return r.net.Stats["fired_drop_request"] + r.net.Stats["fired_drop_reply"] + r.net.Stats["unavailable"] + r.net.Stats["died_in_call"]
 }
 
 func (r *clusterRunner) healthy() bool {
@@ -169,11 +186,14 @@ func (r *clusterRunner) parF(clients [][]Op) {
 				case "bulk":
 					docs, metas := simenv.BuildBulk(op.Docs)
 					ctx, cancel := context.WithTimeout(context.Background(), consts.BulkTimeout)
+					// anything that went wrong anywhere while this bulk was under way excuses its failure (other
+					// clients' calls share the stores): lost requests/replies, a store that died or was unreachable
+					troubleBefore := r.trouble()
 					err := r.client.StoreDocuments(ctx, len(op.Docs), docs, metas)
 					cancel()
 					r.logf("c%d bulk#%d (%d docs) -> %v", ci, op.Bulk, len(op.Docs), err)
 					if err != nil {
-						if r.healthy() {
+						if r.healthy() && r.trouble() == troubleBefore {
 							r.violate("api_error", "StoreDocuments failed although every store is up and reachable: %v", err)
 							return
 						}
@@ -189,6 +209,7 @@ func (r *clusterRunner) parF(clients [][]Op) {
 						r.corpus.Add(d)
 						delete(r.maybe, d.ID())
 					}
+					r.acked = append(r.acked, op.Docs)
 				}
 			}
 		}))
@@ -319,6 +340,73 @@ func (r *clusterRunner) validateF(label string) {
 		}
 	}
 	r.logf("fvalidate %s ok: %d acknowledged docs, %d maybe, healthy=%v", label, len(r.corpus.Docs), len(r.maybe), healthy)
+}
+
+// validateDurable (real-store lane of C09): every store is up again. For every bulk the proxy's client
+// acknowledged, some hot shard - and some long-term shard when that tier exists - must hold every
+// document of the bulk, byte for byte, on each of its replicas.
+func (r *clusterRunner) validateDurable(label string) {
+	byName := map[string]*simenv.Store{}
+	for _, s := range r.stores {
+		byName[s.Node.Name] = s
+		// on disk is not yet fetchable: wait until the index workers are through
+		if s.Node.Alive() && s.Loaded {
+			if res := s.WaitIdle(opTimeout); res != "done" {
+				r.violate("hang", "WaitIdle on %s: %s", s.Node.Name, res)
+				return
+			}
+		}
+	}
+	holds := func(host string, docs []*model.Doc) (bool, string) {
+		st := byName[host]
+		hits := make([]simenv.Hit, len(docs))
+		for i, d := range docs {
+			hits[i] = simenv.Hit{ID: seq.ID{MID: seq.MID(d.MID), RID: seq.RID(d.RID)}}
+		}
+		got, status, err := st.Fetch(opTimeout, hits, false)
+		if status != "done" || err != nil {
+			return false, fmt.Sprintf("%s: fetch %s %v", host, status, err)
+		}
+		for i, d := range docs {
+			if i >= len(got) || got[i].Body == nil {
+				return false, fmt.Sprintf("%s does not hold %s", host, d.ID())
+			}
+			if string(got[i].Body) != string(d.Body()) {
+				return false, fmt.Sprintf("%s holds other bytes for %s", host, d.ID())
+			}
+		}
+		return true, ""
+	}
+	tier := func(st *stores.Stores, docs []*model.Doc) (bool, []string) {
+		if len(st.Shards) == 0 {
+			return true, nil
+		}
+		var why []string
+		for _, sh := range st.Shards {
+			all := true
+			for _, h := range sh {
+				if ok, w := holds(h, docs); !ok {
+					all = false
+					why = append(why, w)
+				}
+			}
+			if all {
+				return true, nil
+			}
+		}
+		return false, why
+	}
+	for bi, docs := range r.acked {
+		if ok, why := tier(r.hotSt, docs); !ok {
+			r.violate("ack_without_full_replica_set", "%s: acknowledged bulk %d (%d documents) is not held by every replica of any hot shard after all stores came back: %v", label, bi, len(docs), why)
+			return
+		}
+		if ok, why := tier(r.coldSt, docs); !ok {
+			r.violate("ack_without_full_replica_set", "%s: acknowledged bulk %d (%d documents) is not held by every replica of any long-term shard after all stores came back: %v", label, bi, len(docs), why)
+			return
+		}
+	}
+	r.logf("dvalidate %s ok: %d acknowledged bulks", label, len(r.acked))
 }
 
 func (r *clusterRunner) upCount() int {
@@ -471,6 +559,8 @@ func GenClusterF(profile, property string, seed uint64, tier Tier) *ClusterCase 
 	c.Knobs.PStmt = 0
 	c.MaxLatencyMs = []int{0, 5, 50}[g.r.Intn(3)]
 	switch profile {
+	case "cluster-c09":
+		genClusterC09(g, c)
 	case "cluster-c19":
 		genClusterC19(g, c)
 	default:
@@ -612,4 +702,74 @@ func genClusterC19(g *gen, c *ClusterCase) {
 		c.Steps = append(c.Steps, Step{Kind: "async_wait", Async: a})
 	}
 	sort.Slice(reqs, func(i, j int) bool { return reqs[i].ID < reqs[j].ID })
+}
+
+// genClusterC09: bulks through the real client while stores crash in the middle of their writes (planned
+// disk faults per node), replies get lost and stores are partitioned; afterwards everything comes back and
+// every acknowledged bulk must sit on a full replica set of real stores.
+func genClusterC09(g *gen, c *ClusterCase) {
+	c.HotShards, c.HotReplicas = g.r.Range(1, 3), g.r.Range(1, 3)
+	if g.r.Bool(0.5) {
+		c.ColdShards, c.ColdReplicas = g.r.Range(1, 2), g.r.Range(1, 2)
+	}
+	c.HotMode = "cold"
+	c.Knobs.FracSize = uint64(g.r.Range(900, 4000))
+	if g.r.Bool(0.4) {
+		c.Knobs.FracSize = 1 << 30
+	}
+	var hosts []string
+	for sh := 0; sh < c.HotShards; sh++ {
+		for rep := 0; rep < c.HotReplicas; rep++ {
+			hosts = append(hosts, fmt.Sprintf("hot-%d-%d", sh, rep))
+		}
+	}
+	for sh := 0; sh < c.ColdShards; sh++ {
+		for rep := 0; rep < c.ColdReplicas; rep++ {
+			hosts = append(hosts, fmt.Sprintf("cold-%d-%d", sh, rep))
+		}
+	}
+	c.NetFaults = map[string]string{}
+	rounds := g.r.Range(1, 3)
+	for round := 1; round <= rounds; round++ {
+		for k := 0; k < g.r.Range(0, 2); k++ {
+			f := &simos.Fault{Group: round, Node: hosts[g.r.Intn(len(hosts))], ImageSeed: g.r.Uint64(), Action: "crash", After: g.r.Bool(0.4)}
+			if g.r.Bool(0.25) {
+				f.Action = "exit"
+			}
+			f.Op = []string{"write", "write", "sync", "mut"}[g.r.Intn(4)]
+			f.PathSuffix = []string{".docs", ".meta", ""}[g.r.Intn(3)]
+			f.Nth = g.r.Range(1, 12)
+			f.ImageMode = []string{"", "", "all", "none"}[g.r.Intn(4)]
+			c.Faults = append(c.Faults, f)
+		}
+		for k := 0; k < g.r.Range(0, 3); k++ {
+			c.NetFaults[fmt.Sprintf("%s/Bulk/%d", hosts[g.r.Intn(len(hosts))], g.r.Range(1, 12))] = []string{"drop_reply", "drop_request"}[g.r.Intn(2)]
+		}
+		if g.r.Bool(0.3) {
+			c.Steps = append(c.Steps, Step{Kind: "partition", Group: g.r.Intn(len(hosts))})
+		}
+		c.Steps = append(c.Steps, Step{Kind: "arm", Group: round})
+		var clients [][]Op
+		for ci := 0; ci < g.r.Range(1, 3); ci++ {
+			var ops []Op
+			for i := 0; i < g.r.Range(2, 7); i++ {
+				ops = append(ops, g.bulk(g.bulkSize()))
+				if g.r.Bool(0.2) {
+					ops = append(ops, Op{Kind: "sleep", Ms: g.r.Range(1, 300)})
+				}
+			}
+			clients = append(clients, ops)
+		}
+		c.Steps = append(c.Steps, Step{Kind: "par", Clients: clients}, Step{Kind: "disarm"})
+		if g.r.Bool(0.3) {
+			c.Steps = append(c.Steps, Step{Kind: "fvalidate", Label: fmt.Sprintf("round%d-faulty", round)})
+		}
+		c.Steps = append(c.Steps, Step{Kind: "heal_all"}, Step{Kind: "dvalidate", Label: fmt.Sprintf("round%d", round)}, Step{Kind: "fvalidate", Label: fmt.Sprintf("round%d-healed", round)})
+		g.nowMs += 2000
+	}
+	for i := 0; i < 4; i++ {
+		s := g.search(false)
+		s.Size = 100000
+		c.Battery = append(c.Battery, s)
+	}
 }
